@@ -12,7 +12,7 @@ from rv import oracles as O
 LEVEL = "exploration"
 RULE = ("all 19 algorithms x tie-heavy and generic inputs of the C01/C03/C05 classes; every case is executed under 7 presentations (list, array, dict(enumerate(values)), dict with "
         "shuffled string names, names+valueof with integer names disjoint from the values, dict with integer names overlapping the value range, names+valueof strings); "
-        "every 40th case: 9-11 items over two distinct values into 5 bins for ckk under list, array and dict; non-trivial = >= 3 items, >= 2 bins; distinct on (algorithm, config, size, sorted values)")
+        "30% of each shard: the 11 cheap heuristics on small value ranges (values <= 5..20, <= 12 items) under list / shuffled-string dict / dict(enumerate) / integer names; every 40th case: 9-11 items over two distinct values into 5 bins for ckk under list, array and dict; non-trivial = >= 3 items, >= 2 bins; distinct on (algorithm, config, size, sorted values)")
 ASSUMPTIONS = ["integer values (ndarray presentation needs them)", "bin-completion with names is the open finding KF-bc-names"]
 FLOORS = {"quick": {"distinct_nontrivial": 800}, "thorough": {"distinct_nontrivial": 4000}}
 PRES = ("list", "array", "dict_str", "names_int", "dict_int_overlap", "names_str", "dict_enum")
@@ -112,8 +112,32 @@ def draw(rng, i):
     return C.draw_cover_case(rng, alg=C.COVERERS[which - 16], cls=rng.choice(["threshold", "equal"]) if ties else None)
 
 
+CHEAP = ("greedy", "roundrobin", "kk", "multifit", "ff", "ffd", "bf", "bfd", "decreasing", "twothirds", "threequarters")
+
+
+def draw_cheap(rng, i):
+    """Cheap heuristics on small value ranges (many arithmetic coincidences and ties between values), 4 presentations: volume for rare name-dependent tie-breaks."""
+    alg = CHEAP[i % len(CHEAP)]
+    R = rng.choice([5, 10, 10, 20])
+    n = rng.randint(2, 12)
+    pres = {"pres": "list", "pres_seed": rng.randrange(1 << 30), "pres_subset": ["list", "dict_str", "dict_enum", "names_int"]}
+    if alg in ("greedy", "roundrobin", "kk", "multifit"):
+        return dict({"kind": "partition", "alg": alg, "k": rng.choice([2, 3, 4]), "values": [rng.randint(0, R) for _ in range(n)], "cls": "cheap_smallrange",
+                     "iterations": 10 if alg == "multifit" else None}, **pres)
+    if alg in ("ff", "ffd", "bf", "bfd"):
+        Cs = rng.randint(R, 2 * R)
+        return dict({"kind": "pack", "alg": alg, "C": Cs, "values": [rng.randint(0, min(R, Cs)) for _ in range(n)], "cls": "cheap_smallrange", "order": "random"}, **pres)
+    return dict({"kind": "cover", "alg": alg, "C": rng.randint(max(1, R // 2), 2 * R), "values": [rng.randint(1, R) for _ in range(n)], "cls": "cheap_smallrange", "order": "random"}, **pres)
+
+
 def run_shard(spec, rng, ctx):
     end = C.budget(spec)
+    cheap_end = C.now() + 0.3 * float(spec.get("budget_s", 60))
+    j = 0
+    while C.now() < cheap_end:
+        judge(draw_cheap(rng, j), ctx)
+        j += 1
+    ctx.counters["cheap_smallrange_cases"] += j
     i = 0
     while i < spec["max_cases"] and C.now() < end:
         judge(draw(rng, i), ctx)
